@@ -10,13 +10,14 @@ import (
 	"testing"
 	"time"
 
+	"github.com/opencontainers/go-digest"
 	"pgregory.net/rapid"
 
 	"github.com/olareg/olareg/config"
 )
 
 const c05cRule = "generated concurrent programs: 2-5 clients each push a complete image (config + 1-3 layers, some shared between clients, by three upload protocols, then the manifest by a shared or own tag) while a 1 ms GC ticker and a " +
-	"synchronous collection loop run with Untagged/ReferrersDangling/ReferrersWithSubj on and GracePeriod 1 h, both stores; oracle = every upload and manifest PUT is acknowledged (a collected blob shows as 400 MANIFEST_BLOB_UNKNOWN), " +
+	"synchronous collection loop run with Untagged/ReferrersDangling/ReferrersWithSubj on and GracePeriod 1 h, both stores, optionally with the layers already present as old unreferenced blobs; oracle = every upload and manifest PUT is acknowledged (a collected blob shows as 400 MANIFEST_BLOB_UNKNOWN), " +
 	"every acknowledged image pulls completely at quiescence; non-trivial = >=1 collection finished while some client was between its first blob and its manifest (measured); distinct = hash of the program"
 
 func c05cProperty(t *rapid.T, st *Stats) {
@@ -45,6 +46,19 @@ func c05cProperty(t *rapid.T, st *Stats) {
 	trace := []string{fmt.Sprintf("dir=%v", dirStore)}
 	for c, p := range plans {
 		trace = append(trace, fmt.Sprintf("client %d: layers %v protocols %v tag %s", c, p.layers, p.proto, p.tag))
+	}
+	// some of the layers may already sit in the repository, unreferenced and long past the grace period (left behind
+	// by an abandoned push): uploading one of them again is a new upload, whatever a collection decides meanwhile
+	stale := rapid.IntRange(0, 3).Draw(t, "staleLayersPresent") > 0
+	if stale {
+		for l := 0; l <= 5; l++ {
+			b := []byte(fmt.Sprintf("layer-%d-%s", l, "0123456789abcdef0123456789abcdef"))
+			if r := doReq(e.srv, "POST", "/v2/img/blobs/uploads/?digest="+dig("sha256", b), b, nil); r.code != 201 {
+				t.Skip("setup failed")
+			}
+		}
+		_ = e.srv.VerifAgeBlobs("img", 3*time.Hour)
+		trace = append(trace, "layers 0-5 are present, unreferenced and 3 h old when the clients start")
 	}
 	var mu sync.Mutex
 	problems := []string{}
@@ -118,6 +132,30 @@ func c05cProperty(t *rapid.T, st *Stats) {
 				return
 			}
 			results[c] = &done{dig("sha256", raw), raw, refs}
+			if !stale {
+				return
+			}
+			// an abandoned blob of this client, long past the grace period, is uploaded again - over and over, while
+			// collections run: each acknowledged upload must find its blob there afterwards
+			b := []byte(fmt.Sprintf("abandoned-by-client-%d", c))
+			d := dig("sha256", b)
+			for i := 0; i < 25; i++ {
+				// (a session upload: its completion runs after the handler has released the repository, so it can
+				// overlap a collection; the monolithic form cannot)
+				r := doReq(e.srv, "POST", "/v2/img/blobs/uploads/", nil, nil)
+				if r.code == 202 {
+					r = doReq(e.srv, "PUT", r.hdr.Get("Location")+"&digest="+d, b, nil)
+				}
+				if r.code != 201 {
+					note("client %d: upload of %s answered %d", c, short(d), r.code)
+					return
+				}
+				if r := doReq(e.srv, "HEAD", "/v2/img/blobs/"+d, nil, nil); r.code != 200 {
+					note("client %d: blob %s was uploaded again (201) and is gone right afterwards (HEAD %d), iteration %d; it had been made 3 h old before that upload, the grace period is 1 h", c, short(d), r.code, i)
+					return
+				}
+				_ = e.srv.VerifSetBlobTime("img", digest.Digest(d), time.Now().Add(-3*time.Hour))
+			}
 		}(c, p)
 	}
 	wg.Wait()
@@ -150,6 +188,9 @@ func c05cProperty(t *rapid.T, st *Stats) {
 	cl := []string{"mem"}
 	if dirStore {
 		cl = []string{"dir"}
+	}
+	if stale {
+		cl = append(cl, "stale-layers-uploaded-again")
 	}
 	st.CaseSample(trace, append(trace, fmt.Sprintf("collections finished while a client was mid-push: %d", midCollections)), midCollections > 0, cl...)
 }
